@@ -13,6 +13,9 @@
 (*     go = json.Marshal of the value json.Unmarshal decoded (hasGo). TLC recomputes      *)
 (*     Norm and JSON-equality.                                                             *)
 (*                                                                                        *)
+(*  kind = "cross": thorough tier, both directions: what one SDK wrote is read and written   *)
+(*     again by the other one.                                                               *)
+(*                                                                                        *)
 (* Report mode prints one FAIL line per violating record; Strict stops (binding self-test).*)
 EXTENDS SemanticsDefaults, Json
 
@@ -49,7 +52,16 @@ PyRtViolated(r) ==
   \cup (IF r.real.pyOK /\ PyRoundTripOK(S, t, r.doc, r.real.py) THEN {} ELSE {<<"RoundTrip">>})
   \cup (IF r.real.pyOK /\ r.real.hasGo /\ ~WireOK(S, t, r.real.py, r.real.go) THEN {<<"Wire">>} ELSE {})
 
-Violated(r) == IF r.kind = "default" THEN DefaultViolated(r) ELSE PyRtViolated(r)
+\* kind = "cross" (thorough tier): src = what one SDK wrote for a document, real.out = what the OTHER SDK wrote after reading src
+\* (real.ok = it could read it). judge.accepted: the harness found src acceptable for the schema (recomputed here).
+CrossViolated(r) ==
+  LET S == SOf(r)
+      t == Root(r) IN
+  IF r.judge.accepted # Accepts(S, t, r.src) THEN {<<"SpecVsValidator">>}
+  ELSE IF ~r.judge.accepted THEN {}
+  ELSE IF r.real.ok /\ PyRoundTripOK(S, t, r.src, r.real.out) THEN {} ELSE {<<"Cross">>}
+
+Violated(r) == CASE r.kind = "default" -> DefaultViolated(r) [] r.kind = "cross" -> CrossViolated(r) [] OTHER -> PyRtViolated(r)
 
 Verdict == l = 1 \/ Violated(Step) = {} \/
            (~Strict /\ PrintT(<<"FAIL", ToJson([l |-> l - 1, violated |-> Violated(Step)])>>))
